@@ -3,6 +3,7 @@ package props
 import (
 	"fmt"
 	"sort"
+	"strings"
 	"testing"
 
 	"github.com/openziti/storage/ast"
@@ -204,6 +205,28 @@ func runC01(c c01Case) kit.Result {
 					return fmt.Errorf("answer depends on the seek shortcut:\n  %s -> %v\n  %s -> %v", text, sortedCopy(ids), rtext, sortedCopy(idsR))
 				}
 				res.Classes = append(res.Classes, "metamorphic:seek-rewrite")
+			}
+			// metamorphic: keywords are case-insensitive (all upper case, and capitalised: "NOT IN", "Not In", "AnyOf" ...)
+			items := (&kit.QuerySpec{Kind: f.Kind, Pred: f.Expr}).Items()
+			for _, style := range []func(string) string{strings.ToUpper, func(w string) string {
+				parts := strings.Fields(w)
+				for i, p := range parts {
+					parts[i] = strings.ToUpper(p[:1]) + p[1:]
+				}
+				return strings.Join(parts, " ")
+			}} {
+				style := style
+				stext := kit.Spell(items, kit.SpellChoice{Case: func(word string, idx int) string { return style(word) }})
+				if stext == text {
+					continue
+				}
+				idsS, _, err := store.QueryIds(tx, stext)
+				if err != nil {
+					return fmt.Errorf("filter rejected after changing the letter case of its keywords: %s\n  (from %s)\n  error: %v", stext, text, err)
+				}
+				if !sameSet(idsS, ids) {
+					return fmt.Errorf("answer depends on the letter case of keywords:\n  %s -> %v\n  %s -> %v", text, sortedCopy(ids), stext, sortedCopy(idsS))
+				}
 			}
 		}
 		return nil
